@@ -22,15 +22,22 @@ LEVEL_TEXT = (
     "an arbitrary accept/reject sequence of the real rejection loop with the real integral / PI controllers (arbitrary admissible "
     "parameters), checkpoints placed relative to the natural step ends (before / within eps / after / several per step / closer than "
     "eps), dt0 from 1e-3 to 10x the spacing, clip on/off. Nine invariants (I1-I9) are evaluated on the totally ordered trace of every "
-    "solver, estimator, controller and interpolation call. Hypothesis shrinks profile + checkpoint list as one value."
+    "solver, estimator, controller and interpolation call (incl.: the estimator state handed to an attempt belongs to the last accepted "
+    "attempt; a further report inside the same step interpolates from the previously reported state). Hypothesis shrinks profile + checkpoint "
+    "list as one value. Three drivers: solve_adaptive_save_at with probe-placed checkpoints; a model-based operation sequence over the public "
+    "RejectionLoop (init/loop driven call by call like solve_adaptive_save_at's advance, every next requested time chosen relative to the loop's "
+    "current state: the end of the step about to be proposed +- ulp..2 eps, inside it, at/behind/ahead of the current time, inside the step that "
+    "has just overshot, closer than eps to the previous request); test_util.solve_adaptive_save_every_step with the final time placed around a "
+    "natural step end (output = t0, every accepted step end, the final time exactly once)."
 )
 LEVEL_NOTE = (
     "Trusted: ordered io_callbacks deliver the call sequence (checked for internal consistency); termination is not part of C06 - "
     "histories exceeding 3000 attempts are ended by the harness and counted inconclusive."
 )
 RULE = (
-    "history = (controller kind+parameters, clip, error profile (6 pieces), exponent, dt0, eps, 5 checkpoint placements relative to probe-run "
-    "step ends); non-trivial = >= 1 rejection and >= 1 interpolation; distinct by JSON hash"
+    "history = (driver save_at|machine|every_step, controller kind+parameters, clip, error profile (6 pieces), exponent, dt0, eps, and 5 checkpoint "
+    "placements relative to probe-run step ends | 3-8 operations choosing the next requested time relative to the loop state | final time relative "
+    "to a step end); non-trivial = >= 1 rejection and >= 1 interpolation; distinct by JSON hash"
 )
 ASSUMPTIONS = ["x64; the scripted solver advances t exactly as a real one (t + dt)"]
 REQUIRED_LABELS = ["clip", "noclip", "ctrl:integral", "ctrl:pi", "branch:at_t1", "branch:beyond", "rejection", "clip_taken", "ckpt_skipped_without_step",
